@@ -651,4 +651,24 @@ def sessions : Option Name → List SniSess → List (Option Name)
     | .f => none :: sessions (negotiateName cap x.domain).1 rest
     | _ => some (negotiateName cap x.domain).2 :: sessions (negotiateName cap x.domain).1 rest
 
+/-! ### the same with what `Negotiate` does to its closure variable as a parameter -/
+
+/-- what `Negotiate` of a STARTTLS feature value does: from (closure variable, domain of the
+session's own address) to (closure variable afterwards, server name handed to `tls.Client`) -/
+abbrev NameFn := Option Name → Nat → Option Name × Name
+
+/-- `sessions` for an arbitrary `Negotiate` -/
+def sessionsG (f : NameFn) : Option Name → List SniSess → List (Option Name)
+  | _, [] => []
+  | cap, x :: rest =>
+    match x.kind with
+    | .n => none :: sessionsG f cap rest
+    | .f => none :: sessionsG f (f cap x.domain).1 rest
+    | _ => some (f cap x.domain).2 :: sessionsG f (f cap x.domain).1 rest
+
+/-- starttls.go before bd73f11: the default configuration was assigned to the closure variable -/
+def negotiateNameCapturing : NameFn
+  | some n, _ => (some n, n)
+  | none, d => (some (.dom d), .dom d)
+
 end XmppModel.StartTLS
